@@ -96,18 +96,34 @@ def gen_cases(ctx):
                 ops = [o for o in ops if o[0] != "update"] + [("update",)] * 7
             free = False
             cases.append((ed, ops))
+    # degenerate but accepted configurations: an engine without phenomena (a validating relay) and one whose only
+    # phenomenon has no action and no generated data - the data still pass once and in order, nothing is stranded
+    for tr, td, tp, tf, early in CONFIGS[::3]:
+        for phen in ([], [(1, [G.pattern(1, G.assign(["R"], 0, "distinct"))])]):
+            ed = dict(cfg=dict(phen=phen, maxcache=0, idbase=1000), tr=tr, td=td, tp=tp, tf=tf, early=early, local_only=True,
+                      datagen=[], act=[])
+            cases.append((ed, [("add", 1), ("add", 2), ("update",), ("add", 3), ("update",), ("update",), ("add", 0), ("update",),
+                               ("update",), ("update",), ("update",)]))
     return cases
 
 
 def drain(engine, handler, cap=60):
+    hist = []
     for _ in range(cap):
-        n = sum(SE.sizes(engine, handler))
+        sz = SE.sizes(engine, handler)
+        n = sum(sz)
         if n == 0:
             return True
         if n > 300:              # a pattern that feeds on its own complex / action events: the stream only grows
             return False
+        hist.append(tuple(sz))
         engine.update()
-    return sum(SE.sizes(engine, handler)) == 0
+    sz = tuple(SE.sizes(engine, handler))
+    if sum(sz) == 0:
+        return True
+    if len(hist) >= 30 and all(h == sz for h in hist[-30:]):
+        return "stuck %s" % (sz,)      # thirty update() calls moved nothing: something is stranded in a queue
+    return False
 
 
 def work(case):
@@ -119,7 +135,11 @@ def work(case):
 
     def bad(sig, what, detail=None):
         return dict(signature=sig, what=what, detail=detail)
-    if quiescent:
+    if isinstance(quiescent, str):
+        fail = bad("stranded-in-a-queue", "no input is pending and 30 further update() calls change nothing, yet the queues "
+                                         "(receiver, decider, producer, forwarder, handler) hold %s" % quiescent[6:])
+        quiescent = False
+    elif quiescent:
         seen = log["seen"]
         simple = [PL.dval(e) for e in seen if PL.kind_of(e) == 0]
         if simple != adds:
